@@ -28,10 +28,10 @@ batch tag and the state has more components.
   otherwise flush as above, then append the sealing record `fin b` (`LogRecordBatchFinished`) —
   the LINEARIZATION POINT of the batch — then release.
 * `DB.Get` has the two phases it has in Go:
-  1. `db.index.Get(key)` — WITHOUT `db.mu` in the current tree.  `Shape.getIdxGated` says whether
-     this read sits inside an R section of `db.mu` (it is computed from the generated lockset
-     table, `C08Batch.lean`; the current tree has `false`).  A miss returns `ErrKeyNotFound`
-     at once, without ever touching `db.mu`.
+  1. `db.index.Get(key)`.  `Shape.getIdxGated` says whether this read sits inside an R section of
+     `db.mu` (it is computed from the generated lockset table, `C08Batch.lean`: `true` for the
+     current tree, `false` for the tree up to e7b2d7b, where the read happened WITHOUT `db.mu`
+     and a miss returned `ErrKeyNotFound` at once, without ever touching `db.mu`).
   2. a hit is resolved by `getValueByPosition`, which passes through `db.mu.RLock()`: the step
      `getResolve` is enabled only while NO WRITER HOLDS `db.mu`.  (In `Model/Conc.lean`
      `getResolve` is a `Local` step that is enabled at any time, also while a writer holds the
@@ -62,7 +62,7 @@ structure Shape where
   getIdxGated : Bool
 deriving DecidableEq, Repr
 
-/-- the current tree: index read of `Get` outside `db.mu` -/
+/-- the tree up to e7b2d7b: index read of `Get` outside `db.mu` -/
 def Shape.asIs : Shape := ⟨false⟩
 def Shape.gated : Shape := ⟨true⟩
 
